@@ -64,6 +64,9 @@ def exec_op(op, dbmap, state, on_failure=None):
     from sim.worlds import build
     o = op["op"]
     db = dbmap[op["db"]]
+    if op.get("path_object"):
+        import pathlib
+        db = pathlib.Path(db)      # a path given as an object instead of a string names the same file
     reply = {}
     value = None
     try:
